@@ -526,7 +526,9 @@ def step0 (s : St) : Label → Option St
       | some q =>
         if q.pc ≠ .w1 then none else
         let s := modCore s r fun q => { q with wrote := q.wrote + 1 }
-        if gateOpen s false then some (tail (modCore s r fun q => { q with pc := .wr }))
+        -- a response passes the shutdown gate unless the writer is known to be broken: its request
+        -- is still counted in `incoming`, so the transport cannot have been closed by us
+        if !s.writeErr then some (tail (modCore s r fun q => { q with pc := .wr }))
         else some (toP2 (tail s) r)      -- refused: the response is dropped, no W2
     | w =>
       match getNotif s w with
